@@ -15,6 +15,18 @@ safe Rust programs against the real crate, plus the direct oracle of property C0
   `BumpVec::new_in(&mut bump)`, … `into_slice()` / `into_boxed_slice()` / `into_str()`); plus every settings
   conversion with single-field (and a few combined) changes.
 
+  DERIVED corpus (`gen_derived`): for EVERY method of the table that hands something out (alloc family, stats, allocator,
+  scope_guard, guard.scope(), as_scope, as_mut_scope, by_value, borrow(_mut)_with_settings, claim, deref(_mut), pool.get*,
+  collection into_*) in every setup that yields a receiver for it, the canonical misuse programs: hold the result / a value
+  allocated through it across every epoch-ending event of every handle of its derivation chain (the ORIGINAL included),
+  allocate through it inside a scope the original opens and read after the scope closed, return it from / store it outside a
+  closure, store it in an outer variable, move it to / share it with another thread — plus the use-before twins.  No
+  expectation is attached: a program MUST NOT COMPILE iff the calculus' dynamic semantics (which looks at no signature) faults
+  on it; `ESCAPE-COMPILES` reports such a program together with the faulting statement.  Variables the program does not drop
+  are dropped implicitly by Rust: the checker's answer lists the invalidated variables at every scope end and the engine counts
+  one whose Rust type has drop glue as a rejection.  `run_life(focus=…)` runs the full derived corpus of the given methods
+  (the search after a table row changed).
+
   If the signature extraction fails (`TRANSLATE-ERROR`), the corpus is generated from — and the calculus' checker
   uses — the last good `Gen/Sigs.lean`, so that a changed signature still shows up as a program that compiles.
 
@@ -114,6 +126,8 @@ class Prog:
             if m: turbofish, a = f"::<{m.group(1)}>", m.group(2)
             if trait:
                 r = ("&mut " if s.recv == "refMut" else "&") + recv
+                if owner in ("BumpAllocator", "BumpAllocatorScope") and self.info.get(h, {}).get("isref"):
+                    r = ("&mut *" if s.recv == "refMut" else "&*") + recv      # Self = the referent, which implements these traits
                 expr = f"{owner}::{name}{turbofish}({r}{', ' + a if a else ''})"
             elif owner == "Bump" and s.recv == "ref" and self.info.get(h, {}).get("isref"):
                 # method syntax on a `&mut Bump` would pick the scope TRAIT's method of the same name (`&&mut Bump` is tried
@@ -152,7 +166,7 @@ class Prog:
         self.stmts.append(("enter", s, g, h, op, owner, name))
         self.info[s] = {"kind": "scope", "isref": True}
         tf = "::<8, _>" if name in ("scoped_aligned", "aligned") else ""
-        self.open.append((len(self.rust), s, g, f"v{h}.{name}{tf}(|v{s}| {{"))
+        self.open.append((len(self.rust), s, g, f"v{h}.{name}{tf}(|mut v{s}| {{"))
         self.rust.append(None)   # placeholder: the `let x = h.scoped(|s| {` line, known at exit
         self.indent += 1
         return s
@@ -665,6 +679,8 @@ def receives(sig, owner, o):
     if owner == "BumpAllocator" and k == "bump" and o["acc"] != "own": return False
     if sig.recv == "refMut" and o["acc"] == "shr": return False
     if sig.recv == "value": return False
+    # the calculus types `claim(&self)` as an exclusive borrow (Life/Calculus.lean, header): not through a shared handle
+    if sig.ret == "claimGuard" and o["acc"] == "shr": return False
     return True
 
 def owner_of(a): return "Bump" if a["kind"] == "bump" else "BumpScope"
@@ -825,7 +841,7 @@ def build_corpus(table, thorough):
         ids.add(c.id)
     return cases
 
-def select(cases, quick, seed, budget=900):
+def select(cases, quick, seed, budget=700):
     """quick tier: all handle / known-finding cases, a capped sample of thread and settings cases, and a stratified
     sample (round robin over (context, route) strata, escape + control kept together) of the producer x route product"""
     if not quick: return cases
@@ -948,7 +964,8 @@ def compile_all(ctx, cases, d, libs):
     shutil.rmtree(gen, ignore_errors=True); os.makedirs(gen); os.makedirs(outd, exist_ok=True)
     deps = os.path.dirname(libs["bump_scope"])
     for i, c in enumerate(cases):
-        header = f"// {c.id}   expected: {c.expected or 'as the const assertions decide'}\n"
+        exp = c.expected or ("as the const assertions decide" if c.conv else "must not compile iff the calculus' dynamic semantics faults on it")
+        header = f"// {c.id}   expected: {exp}\n"
         c.text = c.prog.text(header) if c.prog else conv_program(*c.conv, header=header)
         c.rustc, c.codes, c.first_error, c.idx = None, [], "", i
     groups = collections.defaultdict(list)
@@ -957,6 +974,7 @@ def compile_all(ctx, cases, d, libs):
         cls = c.model_detail.split()[0] if (c.model == "reject" and c.model_detail) else ""
         if c.prog and c.model == "accept": groups["acc"].append(c)
         elif c.prog and cls in ("dead", "escape", "access"): groups["bck"].append(c)
+        elif c.prog and cls == "notSend": groups["snd"].append(c)
         elif c.conv and c.model == "accept": groups["convacc"].append(c)
         else: single.append(c)
     batches = []
@@ -993,8 +1011,9 @@ def compile_all(ctx, cases, d, libs):
             if rc == 0:
                 for c in cs: c.rustc = "accept"
                 continue
-            attributable = all(line is not None for _, line, _ in errs) and all(code in BORROWCK for code, _, _ in errs)
-            if key != "bck" or not attributable:
+            family = BORROWCK if key == "bck" else {"E0277"}
+            attributable = all(line is not None for _, line, _ in errs) and all(code in family for code, _, _ in errs)
+            if key not in ("bck", "snd") or not attributable:
                 redo += cs; continue
             for c in cs: c.codes = []
             for code, line, rendered in errs:
@@ -1096,7 +1115,22 @@ def load_table(ctx=None):
                              "and the calculus' checker uses that table")
         return table_from_generated()
 
-def run_life(ctx, budget=None, focus=None, label="life"):
+def sig_entries(text):
+    """(owner, method) -> the table row, from the text of a Gen/Sigs.lean"""
+    res = {}
+    for l in text.splitlines():
+        m = SIG_LINE.match(l)
+        if m: res[(m.group(1), m.group(2))] = m.groups()[2:8]
+    return res
+
+def changed_methods(old_text, new_text):
+    """methods whose table row differs between two generated tables (added / removed / changed), and whether anything else differs"""
+    a, b = sig_entries(old_text or ""), sig_entries(new_text or "")
+    changed = {k for k in set(a) | set(b) if a.get(k) != b.get(k)}
+    strip = lambda t: "\n".join(l for l in (t or "").splitlines() if not SIG_LINE.match(l))
+    return changed, strip(old_text) != strip(new_text)
+
+def run_life(ctx, budget=None, focus=None, label="life", classic_full=False):
     """generate, compile, check, compare.  Returns True if the engine ran.
     `focus`: a set of (owner, method) — run the FULL derived corpus restricted to programs about these methods (the search after
     a table entry changed) instead of the tier's selection"""
@@ -1105,8 +1139,10 @@ def run_life(ctx, budget=None, focus=None, label="life"):
     except Exception as e:
         ctx.add_ob("run:life-corpus", "build", False, f"no signature table: {e}"); return False
     thorough = not ctx.quick()
-    corpus = build_corpus(table, thorough)
-    if focus is not None:
+    corpus = build_corpus(table, thorough or classic_full)
+    if classic_full:
+        cases = [c for c in corpus if not c.context.startswith("derived:")]
+    elif focus is not None:
         primary = [c for c in corpus if c.focus in focus]
         rng = random.Random(ctx.seed)
         secondary = [c for c in corpus if c.focus not in focus and (c.methods & focus)]
@@ -1114,7 +1150,7 @@ def run_life(ctx, budget=None, focus=None, label="life"):
         cases = primary[:3000] + secondary[:400]
         if not cases: return True
     else:
-        cases = select(corpus, ctx.quick(), ctx.seed, budget or 900)
+        cases = select(corpus, ctx.quick(), ctx.seed, budget or 700)
     d, libs = build_skeleton(ctx)
     if not d: return False
     if not run_checker(ctx, cases): return False
